@@ -4,7 +4,8 @@ Model of AgentSet.do / shuffle_do / map and GroupBy.do / map (mesa/agent.py), pr
 
 The callback is a *script*: what agent `a` does when it is invoked is `script a`, a list of
 actions (remove itself, remove another agent, create agents, make the program drop a
-reference).  An activation takes the snapshot `list(self._agents.keyrefs())` — the keys that
+reference, add an agent to / discard one from a program-made set — possibly the very set being
+activated), after which the callback may raise (`walkX`).  An activation takes the snapshot `list(self._agents.keyrefs())` — the keys that
 are alive when the call starts — and walks it; at each turn the weak reference is
 dereferenced (`alive`), and only then is the callback invoked.
 -/
@@ -15,13 +16,29 @@ inductive Action where
   | rm (b : Aid)
   | create (m : Nat) (ty : Ty) (n : Nat) (hold : Bool)
   | unhold (b : Aid)
+  | addTo (k : Nat) (b : Aid)        -- `program_set_k.add(b)`: the callback edits a set, possibly the activated one
+  | discardFrom (k : Nat) (b : Aid)  -- `program_set_k.discard(b)`
 deriving Repr, DecidableEq
+
+/-- `AgentSet.add(b)` on the program-made set `k`, by a program that can still reach `b` -/
+def setAdd (w : World) (k : Nat) (b : Aid) : World :=
+  match w.sets[k]? with
+  | some (m, l) => if alive w b then { w with sets := w.sets.set k (m, addKey l b) } else w
+  | none => w
+
+/-- `AgentSet.discard(b)` on the program-made set `k` -/
+def setDiscard (w : World) (k : Nat) (b : Aid) : World :=
+  match w.sets[k]? with
+  | some (m, l) => { w with sets := w.sets.set k (m, l.erase b) }
+  | none => w
 
 def runAction (self : Aid) (w : World) : Action → World
   | .rmSelf => removeAgent w self
   | .rm b => removeAgent w b
   | .create m ty n hold => createN w m ty hold (List.replicate n [.int 0])
   | .unhold b => unhold w b
+  | .addTo k b => setAdd w k b
+  | .discardFrom k b => setDiscard w k b
 
 /-- the callback of agent `a` with argument `arg`: logged, then its script runs -/
 def invoke (script : Aid → List Action) (arg : Nat) (w : World) (a : Aid) : World :=
@@ -59,6 +76,43 @@ def mapSet (script : Aid → List Action) (arg : Nat) (ret : Aid → Nat → Nat
     World × List Nat :=
   walkMap script arg ret w (members w t)
 
+/-! ### callbacks that raise
+
+`raises a` = the callback of agent `a` raises an exception once its script has run.  Nothing in `do` /
+`shuffle_do` / `map` / `GroupBy.do` / `GroupBy.map` catches it: the loop ends there and the exception leaves the
+call (`true` in the second component); `map` then returns no list. -/
+
+def walkX (script : Aid → List Action) (raises : Aid → Bool) (arg : Nat) : World → List Aid → World × Bool
+  | w, [] => (w, false)
+  | w, a :: rest =>
+    if alive w a then
+      if raises a then (invoke script arg w a, true)
+      else walkX script raises arg (invoke script arg w a) rest
+    else walkX script raises arg w rest
+
+def doSetX (script : Aid → List Action) (raises : Aid → Bool) (arg : Nat) (w : World) (t : Target) : World × Bool :=
+  walkX script raises arg w (members w t)
+
+def shuffleDoX (script : Aid → List Action) (raises : Aid → Bool) (arg : Nat) (w : World) (t : Target) : World × Bool :=
+  let (refs, g) := Rng.shuffle (members w t) (rngOf w t)
+  walkX script raises arg (setRng w (t.model w) g) refs
+
+/-- the list comprehension of `map`: `none` = the exception left the call, no list was built -/
+def walkMapX (script : Aid → List Action) (raises : Aid → Bool) (arg : Nat) (ret : Aid → Nat → Nat) :
+    World → List Aid → World × Option (List Nat)
+  | w, [] => (w, some [])
+  | w, a :: rest =>
+    if alive w a then
+      if raises a then (invoke script arg w a, none)
+      else
+        let (w', rs) := walkMapX script raises arg ret (invoke script arg w a) rest
+        (w', rs.map (ret a arg :: ·))
+    else walkMapX script raises arg ret w rest
+
+def mapSetX (script : Aid → List Action) (raises : Aid → Bool) (arg : Nat) (ret : Aid → Nat → Nat) (w : World)
+    (t : Target) : World × Option (List Nat) :=
+  walkMapX script raises arg ret w (members w t)
+
 /-! ### groupby -/
 
 /-- the `by` functions the harness uses: the agent's class, or `unique_id % k` -/
@@ -85,6 +139,32 @@ def groupMap (script : Aid → List Action) (arg : Nat) (ret : Aid → Nat → N
       (w', acc.2 ++ [(g.1, rs)]))
     (w, [])
 
+/-- `GroupBy.do` when callbacks may raise: the group loop is left with the first exception -/
+def groupsX (script : Aid → List Action) (raises : Aid → Bool) (arg : Nat) : World → List (Nat × List Aid) → World × Bool
+  | w, [] => (w, false)
+  | w, g :: gs =>
+    let (w', r) := walkX script raises arg w (g.2.filter (alive w))
+    if r then (w', true) else groupsX script raises arg w' gs
+
+def groupDoX (script : Aid → List Action) (raises : Aid → Bool) (arg : Nat) (key : Aid → Nat) (w : World) (t : Target) :
+    World × Bool :=
+  groupsX script raises arg w (groupBy key (members w t))
+
+/-- `GroupBy.map` when callbacks may raise: the dict comprehension is left with the first exception -/
+def groupsMapX (script : Aid → List Action) (raises : Aid → Bool) (arg : Nat) (ret : Aid → Nat → Nat) :
+    World → List (Nat × List Aid) → World × Option (List (Nat × List Nat))
+  | w, [] => (w, some [])
+  | w, g :: gs =>
+    match walkMapX script raises arg ret w (g.2.filter (alive w)) with
+    | (w', none) => (w', none)
+    | (w', some rs) =>
+      let (w'', rest) := groupsMapX script raises arg ret w' gs
+      (w'', rest.map ((g.1, rs) :: ·))
+
+def groupMapX (script : Aid → List Action) (raises : Aid → Bool) (arg : Nat) (ret : Aid → Nat → Nat) (key : Aid → Nat)
+    (w : World) (t : Target) : World × Option (List (Nat × List Nat)) :=
+  groupsMapX script raises arg ret w (groupBy key (members w t))
+
 /-! ### histories -/
 
 inductive Op where
@@ -103,6 +183,12 @@ inductive Op where
   | mapSet (script : Aid → List Action) (arg : Nat) (t : Target)
   | groupDo (script : Aid → List Action) (arg : Nat) (key : GroupKey) (t : Target)
   | groupMap (script : Aid → List Action) (arg : Nat) (key : GroupKey) (t : Target)
+  -- the same five activations with callbacks that may raise (the exception ends the call)
+  | doSetX (script : Aid → List Action) (raises : Aid → Bool) (arg : Nat) (t : Target)
+  | shuffleDoX (script : Aid → List Action) (raises : Aid → Bool) (arg : Nat) (t : Target)
+  | mapSetX (script : Aid → List Action) (raises : Aid → Bool) (arg : Nat) (t : Target)
+  | groupDoX (script : Aid → List Action) (raises : Aid → Bool) (arg : Nat) (key : GroupKey) (t : Target)
+  | groupMapX (script : Aid → List Action) (raises : Aid → Bool) (arg : Nat) (key : GroupKey) (t : Target)
 
 def step (w : World) : Op → World
   | .newModel g => newModel w g
@@ -120,6 +206,11 @@ def step (w : World) : Op → World
   | .mapSet script arg t => (mapSet script arg (fun _ _ => 0) w t).1
   | .groupDo script arg key t => groupDo script arg (key.eval w) w t
   | .groupMap script arg key t => (groupMap script arg (fun _ _ => 0) (key.eval w) w t).1
+  | .doSetX script raises arg t => (doSetX script raises arg w t).1
+  | .shuffleDoX script raises arg t => (shuffleDoX script raises arg w t).1
+  | .mapSetX script raises arg t => (mapSetX script raises arg (fun _ _ => 0) w t).1
+  | .groupDoX script raises arg key t => (groupDoX script raises arg (key.eval w) w t).1
+  | .groupMapX script raises arg key t => (groupMapX script raises arg (fun _ _ => 0) (key.eval w) w t).1
 
 def run (w : World) (ops : List Op) : World := ops.foldl step w
 
